@@ -117,8 +117,8 @@ func zzC04_PlanAtomic() {
 	zzAssume(err0 == nil)
 	n0 := zzCountTasks(g0)
 	p := zzPlanDoc("1;Tasks=1;After=0")
-	zzStdinPlan(p, false)
 	zzStdinPiped(true)
+	zzStdinPlan(p, false)
 	zzAssume(p.Validate() == nil)
 	zzProcBegin(true)
 	errA := RunPlan(nil, opts)
@@ -130,7 +130,9 @@ func zzC04_PlanAtomic() {
 		return
 	}
 	n1 := zzCountTasks(g1)
+	zzNote("plan: err=" + zzErrText(errA) + " n0=" + zzItoa(n0) + " n1=" + zzItoa(n1) + " alive=" + zzBtoa(aliveA))
 	zzAssert(n1 == n0 || n1 == n0+1+len(p.Tasks), "C04/plan: after a kill the plan is entirely absent or entirely present")
+	zzAssert(n1 == n0 || n1 == n0+1+len(p.Tasks), "C11/atomic: plan creates the whole described graph or nothing, even when interrupted")
 	if aliveA && errA == nil {
 		zzAssert(n1 == n0+1+len(p.Tasks), "C04/plan: an acknowledged plan is in effect")
 	}
@@ -160,3 +162,110 @@ func zzC03_CompactStaleTmp() {
 // CUT used by the storage-protocol units: the derived, display-only Deps/RDeps slices are not
 // computed (sortedKeys summarised as "no keys"); nothing these units assert reads them.
 func zzSortedKeysCut(items map[string]struct{}) []string { return nil }
+
+// ---------------------------------------------------------------- C13
+// A reader that runs while a writer is active sees the file as of one instant, i.e. after some
+// prefix of the writer's (atomic) system calls: the same "prefix of effects" variable as a
+// crash point, without torn writes and without the writer dying.
+func zzC13ReaderDuring(writer int) {
+	spec := "2;winv=1;clean=1;Results=0"
+	if writer >= 2 {
+		spec = "1;winv=1;clean=1;Results=0" // the rewriting commands replay and re-emit the whole log
+	}
+	root := zzFSInit(spec)
+	opts, dir := zzFSOpts(root)
+	g0, err0 := loadGraph(dir)
+	zzAssume(err0 == nil)
+	n0 := zzCountTasks(g0)
+	zzProcBegin(true) // the writer has performed an arbitrary prefix of its system calls ...
+	zzNoTornWrites()  // ... each of them atomic
+	delta := 0
+	switch writer {
+	case 0:
+		createTask(dir, opts, "", false, "title-a", "body-a")
+		delta = 1
+	case 1:
+		RunClaimOldestReady("", opts)
+	case 2:
+		RunCompact(opts)
+	case 3:
+		p := zzPlanDoc("1;Tasks=1;After=0")
+		zzStdinPiped(true)
+		zzStdinPlan(p, false)
+		zzAssume(p.Validate() == nil)
+		RunPlan(nil, opts)
+		delta = 2
+	}
+	zzProcAlive()
+	zzProcBegin(false) // the reader (list / show take no lock)
+	g1, err1 := loadGraph(dir)
+	zzAssert(err1 == nil, "C13/reader: a read concurrent with a writer succeeds")
+	if err1 != nil {
+		return
+	}
+	n1 := zzCountTasks(g1)
+	zzAssert(n1 == n0 || n1 == n0+delta, "C13/reader: it shows a state the store passed through (never an empty or mixed store)")
+	if writer == 1 {
+		for k, t := range g0.Tasks {
+			p := g1.Tasks[k]
+			zzAssert(p != nil && (p.State == t.State || p.State == "doing"), "C13/reader: concurrent claim shows the task before or after its events")
+		}
+	}
+	zzReach("end")
+}
+
+func zzC13_DuringNewTask() { zzC13ReaderDuring(0) }
+func zzC13_DuringClaim()   { zzC13ReaderDuring(1) }
+func zzC13_DuringCompact() { zzC13ReaderDuring(2) }
+func zzC13_DuringPlan()    { zzC13ReaderDuring(3) }
+
+// ---------------------------------------------------------------- C02 / C01: lock discipline
+// Per command, on the real code: writes (and the reads that feed them) happen inside an exclusive,
+// non-blocking flock section; a failed lock attempt is followed by no write. Together with the
+// kernel's mutual exclusion of LOCK_EX holders (assumption A1/A5) this serialises the sections.
+func zzC02Discipline(cmd int) {
+	root := zzFSInit("1;winv=1;clean=1;Results=0")
+	opts, dir := zzFSOpts(root)
+	_, err0 := loadGraph(dir)
+	zzAssume(err0 == nil)
+	zzProcBegin(false)
+	var err error
+	switch cmd {
+	case 0:
+		_, err = createTask(dir, opts, "", false, "title-a", "body-a")
+	case 1:
+		err = RunClaimOldestReady("", opts)
+	case 2:
+		err = RunCompact(opts)
+	case 3:
+		p := zzPlanDoc("1;Tasks=1;After=0")
+		zzStdinPiped(true)
+		zzStdinPlan(p, false)
+		err = RunPlan(nil, opts)
+	case 4:
+		err = RunSequence([]string{zzString("A"), zzString("B")}, opts)
+	case 5:
+		_, err = runPrune(dir, opts, true)
+	case 6:
+		err = applySetUpdates(dir, opts, zzString("id"), zzSetRequest(), opts.AgentID, true)
+	}
+	wil, ril, nb, exl := zzLockDiscipline()
+	zzAssert(wil, "C02/struct: every write, truncate and rename on the log happens while holding the flock")
+	zzAssert(ril, "C02/struct: every read of the log that feeds a later write happens while holding the flock")
+	zzAssert(nb, "C02/struct: every flock is non-blocking (LOCK_NB): a command never waits for the lock")
+	zzAssert(exl, "C02/struct: every flock taken by a mutating command is exclusive (LOCK_EX)")
+	if errors.Is(err, ErrLockBusy) {
+		_, _, n := zzLogShape(getEventsPath(dir))
+		_ = n
+		zzReach("lock-busy")
+	}
+	zzReach("end")
+}
+
+func zzC02_NewTask()  { zzC02Discipline(0) }
+func zzC02_Claim()    { zzC02Discipline(1) }
+func zzC02_Compact()  { zzC02Discipline(2) }
+func zzC02_Plan()     { zzC02Discipline(3) }
+func zzC02_Sequence() { zzC02Discipline(4) }
+func zzC02_Prune()    { zzC02Discipline(5) }
+func zzC02_Set()      { zzC02Discipline(6) }
